@@ -49,7 +49,8 @@ type coOp struct {
 	P      int32  `json:"p,omitempty"`      // commit: partition
 	Off    int64  `json:"off,omitempty"`    // commit: offset
 	D      int64  `json:"d,omitempty"`      // adv: milliseconds
-	Inner  []coOp `json:"inner,omitempty"`  // commit: operations attempted between the membership check and the store write
+	Inner  []coOp `json:"inner,omitempty"`  // operations that other clients issue while this operation is inside a store call
+	At     string `json:"at,omitempty"`     // which store call is parked: fetch put delete metadata commit; "" = the first one during which c.mu is free
 }
 
 type coCase struct {
@@ -122,19 +123,53 @@ type coStep struct {
 
 type coFail struct{ prop, key, what string }
 
-// ---------- store wrapper: a hook between OffsetCommit's check and its store write ----------
+// ---------- gating store wrapper ----------
+// Every store call the coordinator makes goes through gate(). The model's step relation
+// is atomic per operation because of the assumption "every coordinator operation holds
+// c.mu from its first read of group state to its last store write"; the gate CHECKS it
+// on the real code: while an operation is inside a store call, is c.mu free? If it is,
+// the schedule's inner operations are run right there, to completion, while the outer
+// operation's store call is parked (they run on the same group, through the same real
+// coordinator), and the call is released afterwards -- for two whole-group Puts this is
+// the "older snapshot lands last" order. Where the code holds c.mu across the store call
+// the inner operations could only block until the outer one returns: they are run after
+// it (the linearisation the lock enforces) and nothing is flagged.
 type coStore struct {
 	*metadata.InMemoryStore
-	hook func()
+	gate func(call string)
 }
 
-func (s *coStore) CommitConsumerOffset(ctx context.Context, group, topic string, partition int32, offset int64, md string) error {
-	if s.hook != nil {
-		h := s.hook
-		s.hook = nil
-		h()
+func (s *coStore) pass(call string) {
+	if s.gate != nil {
+		s.gate(call)
 	}
+}
+func (s *coStore) Metadata(ctx context.Context, topics []string) (*metadata.ClusterMetadata, error) {
+	s.pass("metadata")
+	return s.InMemoryStore.Metadata(ctx, topics)
+}
+func (s *coStore) PutConsumerGroup(ctx context.Context, group *metadatapb.ConsumerGroup) error {
+	s.pass("put")
+	return s.InMemoryStore.PutConsumerGroup(ctx, group)
+}
+func (s *coStore) FetchConsumerGroup(ctx context.Context, groupID string) (*metadatapb.ConsumerGroup, error) {
+	s.pass("fetch")
+	return s.InMemoryStore.FetchConsumerGroup(ctx, groupID)
+}
+func (s *coStore) DeleteConsumerGroup(ctx context.Context, groupID string) error {
+	s.pass("delete")
+	return s.InMemoryStore.DeleteConsumerGroup(ctx, groupID)
+}
+func (s *coStore) CommitConsumerOffset(ctx context.Context, group, topic string, partition int32, offset int64, md string) error {
+	s.pass("commit")
 	return s.InMemoryStore.CommitConsumerOffset(ctx, group, topic, partition, offset, md)
+}
+
+// coGate: the window of one outer operation
+type coGate struct {
+	op          coOp
+	interleaved bool   // inner operations ran while a store call of the outer operation was parked
+	call        string // the store call during which c.mu was found free
 }
 
 // ---------- the runner ----------
@@ -168,7 +203,9 @@ type coRunner struct {
 	// C15 "members keep working": the Stable group as it was at the last failover; valid
 	// until something legitimately changes the membership (a join, a leave, an expiry that
 	// the harness's own bookkeeping of refresh times and session timeouts agrees with)
-	kw *coGroupSnap
+	kw    *coGroupSnap
+	cur   *coGate // the operation being executed (nil between operations)
+	depth int     // 1 = an operation of the history, 2 = an operation running inside another one's parked store call
 }
 
 func (r *coRunner) now() int64 { return time.Since(r.base).Milliseconds() }
@@ -213,7 +250,7 @@ func (r *coRunner) snapMem() *coGroupSnap {
 }
 
 func (r *coRunner) fetchStored() *metadatapb.ConsumerGroup {
-	g, _ := r.store.FetchConsumerGroup(context.Background(), coGroup)
+	g, _ := r.store.InMemoryStore.FetchConsumerGroup(context.Background(), coGroup) // the harness's own look: not gated
 	return g
 }
 
@@ -276,7 +313,7 @@ func (g *coGroupSnap) assignment(id string) []assignmentTopic {
 func (r *coRunner) offsets() []int64 {
 	out := make([]int64, len(r.keys))
 	for i, k := range r.keys {
-		o, _, _ := r.store.FetchConsumerOffset(context.Background(), coGroup, coTopicNames[k[0]], int32(k[1]))
+		o, _, _ := r.store.InMemoryStore.FetchConsumerOffset(context.Background(), coGroup, coTopicNames[k[0]], int32(k[1]))
 		out[i] = o
 	}
 	return out
@@ -453,6 +490,15 @@ func (r *coRunner) record(s coStep) {
 			r.fail("C13", "generation-decreased", fmt.Sprintf("the group had generation %d and now has %d", r.genSeen, s.mem.gen))
 		}
 	}
+	if r.depth == 1 && s.kind != "failover" && s.mem != nil {
+		// C15: at a quiescent point (the operation returned, nothing parked) the store
+		// holds the group as it is in memory -- what a coordinator taking over would load
+		if pg := r.fetchStored(); pg == nil {
+			r.fail("C15", "store-differs-from-memory", fmt.Sprintf("after %s the group (generation %d, %d members) is in memory but not in the store", s.kind, s.mem.gen, len(s.mem.members)))
+		} else if d := coViewDiff(s.mem, coSnapGroup(restoreGroupState(pg), r.base)); d != "" {
+			r.fail("C15", "store-differs-from-memory", fmt.Sprintf("after %s a coordinator loading the group from the store would see a different group than the one in memory: %s", s.kind, d))
+		}
+	}
 	r.steps = append(r.steps, s)
 	if s.mem == nil && s.store == nil && (r.maxGen != 0 || len(r.sub) > 0) {
 		// the group is gone: a later group of the same name is a new incarnation
@@ -478,12 +524,40 @@ func (r *coRunner) dropGone(v *coGroupSnap) {
 
 func (r *coRunner) exec(op coOp) {
 	ctx := context.Background()
-	switch op.K {
-	case "adv":
+	if op.K == "adv" {
 		if op.D > 0 {
 			time.Sleep(time.Duration(op.D) * time.Millisecond)
 		}
 		return
+	}
+	outer := r.cur
+	g := &coGate{op: op}
+	r.cur = g
+	r.depth++
+	if op.K != "failover" {
+		r.store.gate = func(call string) {
+			if r.cur != g || g.interleaved {
+				return
+			}
+			if !r.c.mu.TryLock() {
+				return // the operation holds the coordinator lock across this store call: atomic
+			}
+			r.c.mu.Unlock()
+			if g.call == "" {
+				g.call = call
+				r.fail("*", "lock-released-across-store-call:"+op.K+":"+call, fmt.Sprintf("%s is inside store.%s with the coordinator lock released: other operations on the group can run to completion between its reads of the group state and its store writes (assumption 'every coordinator operation holds c.mu from its first read of group state to its last store write' does not hold)", op.K, coStoreCallName(call)))
+			}
+			if len(op.Inner) > 0 && (op.At == "" || op.At == call) {
+				g.interleaved = true
+				r.tags["window-interleaved"] = true
+				for _, in := range op.Inner {
+					r.exec(in) // runs to completion while the outer store call is parked
+				}
+				r.cur = g
+			}
+		}
+	}
+	switch op.K {
 	case "join":
 		r.doJoin(ctx, op)
 	case "sync":
@@ -499,7 +573,31 @@ func (r *coRunner) exec(op coOp) {
 	case "failover":
 		r.doFailover()
 	}
+	r.store.gate = nil
+	r.cur = outer
+	r.depth--
+	if len(op.Inner) > 0 {
+		r.tags["window:"+op.K] = true
+		if !g.interleaved {
+			// c.mu was held across every store call: the other clients' operations were
+			// blocked until this one returned
+			for _, in := range op.Inner {
+				r.exec(in)
+			}
+		}
+	}
+	if outer != nil {
+		// back inside the outer operation's parked store call
+		r.store.gate = nil
+	}
 }
+
+func coStoreCallName(call string) string {
+	return map[string]string{"metadata": "Metadata", "put": "PutConsumerGroup", "fetch": "FetchConsumerGroup", "delete": "DeleteConsumerGroup", "commit": "CommitConsumerOffset"}[call]
+}
+
+// interleaved: other operations completed while the current one was inside a store call
+func (r *coRunner) interleaved() bool { return r.cur != nil && r.cur.interleaved }
 
 func (r *coRunner) doJoin(ctx context.Context, op coOp) {
 	r.preFailover = nil
@@ -611,6 +709,11 @@ func (r *coRunner) doSync(ctx context.Context, op coOp) {
 	}
 	post := r.view()
 	current := r.isCurrent(pre, id, gen)
+	if r.interleaved() {
+		// other operations completed while this sync was inside a store call: a NONE answer
+		// must be for the current generation at the time it is answered
+		current = current && r.isCurrent(post, id, gen)
+	}
 	// ---- C13 ----
 	if !current {
 		r.tags["sync-stale"] = true
@@ -779,6 +882,9 @@ func (r *coRunner) doHeartbeat(ctx context.Context, op coOp) {
 	resp := r.c.Heartbeat(ctx, req)
 	st := coStep{kind: "hb", mid: id, gen: gen, now: now, reply: coReply{kind: "err", err: resp.ErrorCode}}
 	current := r.isCurrent(pre, id, gen)
+	if r.interleaved() {
+		current = current && r.isCurrent(r.view(), id, gen)
+	}
 	if !current {
 		r.tags["hb-stale"] = true
 		if resp.ErrorCode == protocol.NONE {
@@ -836,22 +942,8 @@ func (r *coRunner) doCommit(ctx context.Context, op coOp) {
 	tp.Partitions = append(tp.Partitions, pp)
 	req.Topics = append(req.Topics, tp)
 	now := r.now()
-	// schedule: operations that try to run between the membership check and the store write
-	interleaved := false
-	if len(op.Inner) > 0 {
-		r.tags["commit-with-concurrent-ops"] = true
-		r.store.hook = func() {
-			if r.c.mu.TryLock() { // the coordinator lock is NOT held during the store write
-				r.c.mu.Unlock()
-				interleaved = true
-				for _, in := range op.Inner {
-					r.exec(in)
-				}
-			}
-		}
-	}
 	resp, err := r.c.OffsetCommit(ctx, req)
-	r.store.hook = nil
+	interleaved := r.interleaved()
 	if err != nil || resp == nil || len(resp.Topics) != 1 || len(resp.Topics[0].Partitions) != 1 {
 		r.fail("*", "commit-error", fmt.Sprintf("OffsetCommit returned %v / malformed response", err))
 		return
@@ -885,11 +977,6 @@ func (r *coRunner) doCommit(ctx context.Context, op coOp) {
 	}
 	r.preFailover = nil
 	r.record(st)
-	if !interleaved {
-		for _, in := range op.Inner {
-			r.exec(in)
-		}
-	}
 }
 
 func (r *coRunner) doCleanup() {
@@ -1156,7 +1243,68 @@ func coGenCase(t *testing.T, rng *vRand) *coRunner {
 		return out
 	}
 	var pending []coOp // a planned multi-operation shape in progress
+	var choose func(r *coRunner, i int) (coOp, bool)
+	// windows: while the chosen operation is inside a store call, other clients issue
+	// operations on the same group -- every outer kind x store call x inner kinds
 	next := func(r *coRunner, i int) (coOp, bool) {
+		op, ok := choose(r, i)
+		if !ok || len(op.Inner) > 0 || !rng.Chance(16) {
+			return op, ok
+		}
+		switch op.K {
+		case "join", "sync", "hb", "leave", "commit", "cleanup":
+		default:
+			return op, ok
+		}
+		v := r.view()
+		var cur []int
+		if v != nil {
+			for sl, id := range r.ids {
+				if v.member(id) != nil {
+					cur = append(cur, sl)
+				}
+			}
+		}
+		anyCur := func() int {
+			if len(cur) == 0 {
+				return -2
+			}
+			return cur[rng.Intn(len(cur))]
+		}
+		n := rng.Range(1, 2)
+		for k := 0; k < n; k++ {
+			switch rng.Intn(8) {
+			case 0:
+				op.Inner = append(op.Inner, coOp{K: "leave", M: anyCur()})
+			case 1:
+				op.Inner = append(op.Inner, coOp{K: "join", M: -1, Sess: sessions[rng.Intn(4)], Reb: rebs[rng.Intn(4)], Topics: randTopics()})
+			case 2:
+				sl := anyCur()
+				op.Inner = append(op.Inner, coOp{K: "join", M: sl, Sess: sessions[rng.Intn(4)], Reb: rebs[rng.Intn(4)], Topics: subs[sl]})
+			case 3:
+				op.Inner = append(op.Inner, coOp{K: "adv", D: 60001}, coOp{K: "cleanup"})
+			case 4:
+				op.Inner = append(op.Inner, coOp{K: "hb", M: anyCur()})
+			case 5:
+				op.Inner = append(op.Inner, coOp{K: "sync", M: anyCur()})
+			case 6:
+				op.Inner = append(op.Inner, coOp{K: "commit", M: anyCur(), T: rng.Intn(3), P: int32(rng.Intn(3)), Off: int64(rng.Range(1, 1000))})
+			default:
+				sl := anyCur()
+				op.Inner = append(op.Inner, coOp{K: "join", M: sl, Sess: sessions[rng.Intn(4)], Reb: rebs[rng.Intn(4)], Topics: randTopics()})
+			}
+		}
+		if rng.Chance(40) {
+			op.At = []string{"fetch", "put", "delete", "metadata", "commit"}[rng.Intn(5)]
+		}
+		for _, in := range op.Inner {
+			if in.K != "adv" {
+				r.tags["window:"+op.K+":"+in.K] = true
+			}
+		}
+		return op, true
+	}
+	choose = func(r *coRunner, i int) (coOp, bool) {
 		if len(pending) > 0 {
 			op := pending[0]
 			pending = pending[1:]
@@ -1607,6 +1755,12 @@ func coCorpus() []coCase {
 		{Parts: p, Seed: 19, Ops: []coOp{{K: "join", M: -1, Sess: 10000, Topics: []int{0}}, {K: "sync", M: 0}, {K: "join", M: -1, Sess: 10000, Topics: []int{0}}, {K: "join", M: 0, Sess: 10000, Topics: []int{0}}, {K: "sync", M: 0}, {K: "sync", M: 1},
 			{K: "adv", D: 5000}, {K: "hb", M: 0}, {K: "hb", M: 1}, {K: "adv", D: 5000}, {K: "hb", M: 0}, {K: "hb", M: 1}, {K: "adv", D: 5000}, {K: "hb", M: 0}, {K: "hb", M: 1},
 			{K: "failover"}, {K: "hb", M: 0, G: 1}, {K: "cleanup"}, {K: "hb", M: 1, G: 1}, {K: "sync", M: 1, G: 1}, {K: "commit", M: 0, G: 1, T: 0, P: 0, Off: 3}}},
+		// schedules: the leader's sync is inside store.Metadata while a member leaves / a new
+		// member joins; a join is inside PutConsumerGroup while another join completes
+		{Parts: p, Seed: 20, Ops: []coOp{{K: "join", M: -1, Topics: []int{0}}, {K: "sync", M: 0}, {K: "join", M: -1, Topics: []int{0}}, {K: "join", M: 0, Topics: []int{0}},
+			{K: "sync", M: 0, Inner: []coOp{{K: "leave", M: 1}}}, {K: "hb", M: 0}, {K: "sync", M: 0, G: 1}, {K: "failover"}, {K: "hb", M: 0, G: 1}}},
+		{Parts: p, Seed: 21, Ops: []coOp{{K: "join", M: -1, Topics: []int{0}}, {K: "sync", M: 0},
+			{K: "join", M: -1, Topics: []int{0}, At: "put", Inner: []coOp{{K: "join", M: -1, Topics: []int{1}}}}, {K: "failover"}, {K: "hb", M: 1, G: 1}, {K: "hb", M: 2, G: 1}}},
 		// C14 / C43: laggers at the rebalance deadline
 		{Parts: p, Seed: 16, Ops: []coOp{{K: "join", M: -1, Sess: 40000, Reb: 5000, Topics: []int{0}}, {K: "sync", M: 0}, {K: "join", M: -1, Sess: 40000, Reb: 5000, Topics: []int{0}}, {K: "adv", D: 4999}, {K: "cleanup"}, {K: "adv", D: 1}, {K: "cleanup"},
 			{K: "join", M: 1, Sess: 40000, Reb: 5000, Topics: []int{0}}, {K: "sync", M: 1}}},
@@ -1690,10 +1844,22 @@ func TestVerifCoordinator(t *testing.T) {
 		rep.Hist(fmt.Sprintf("ops<=%d", ((len(r.steps)+9)/10)*10))
 		coShapeTags(r, rep)
 		rep.Sample(r.cs)
+		seenKey := map[string]bool{}
 		for _, f := range r.fails {
 			if f.prop != prop && f.prop != "*" {
 				continue
 			}
+			// one (shrunk) report per kind of failure and case; at most two per kind overall
+			have := 0
+			for _, old := range rep.Failures {
+				if old.Key == f.key {
+					have++
+				}
+			}
+			if seenKey[f.key] || have >= 2 {
+				continue
+			}
+			seenKey[f.key] = true
 			// shrink: smallest op list that still fails with the same key
 			shr := r.cs
 			shr.Ops = vShrink(r.cs.Ops, func(ops []coOp) bool {
@@ -1716,7 +1882,6 @@ func TestVerifCoordinator(t *testing.T) {
 				}
 			}
 			rep.Fail(f.key, f.key, what, shr)
-			break
 		}
 		coq = append(coq, r.coq())
 		jsons = append(jsons, string(canon))
